@@ -223,6 +223,13 @@ SNIPPETS = [
     ({'n': 5}, "r = n if n > 3 else (n - 1 if n > 1 else 0)"),
     ({'n': 5}, "r = not (n > 3 and n < 10) or n == 7"),
     ({'x': 'a'}, "r = x * 2 + 'b' * 0", 'unsupported-symbolic'),
+    # --- codecs: known to lookup() is not enough for encode / decode -------
+    ({'x': b'6162'},
+     "try:\n    r = x.decode('hex')\nexcept LookupError:\n    r = 'LookupError'"),
+    ({'x': 'ab'},
+     "try:\n    r = x.encode('rot13')\nexcept LookupError:\n    r = 'LookupError'"),
+    ({'x': 'ab'},
+     "try:\n    r = x.encode('no-such-codec')\nexcept LookupError:\n    r = 'LookupError'"),
 ]
 
 
